@@ -81,6 +81,56 @@ func verifStopInFlight(buffer int) error {
 	return nil
 }
 
+type verifTimedOp int
+
+func (o verifTimedOp) Operation() (interface{}, error) {
+	time.Sleep(time.Millisecond)
+	if o%3 == 0 {
+		return nil, fmt.Errorf("op %d failed", int(o))
+	}
+	return int(o), nil
+}
+
+// verifWaitAfterClose: the queue is filled and closed before the workers have been scheduled; Wait must still not
+// return before every queued operation has produced its result and the workers have exited.
+func verifWaitAfterClose(n, threads int) error {
+	queue := make(chan Operator, n)
+	for i := 0; i < n; i++ {
+		queue <- verifTimedOp(i)
+	}
+	p := NewProcessor(queue, n, threads)
+	p.Close()
+	done := make(chan struct{})
+	go func() { p.Wait(); close(done) }()
+	select {
+	case <-done:
+	case <-time.After(10 * time.Second):
+		return fmt.Errorf("Wait did not return within 10 s (%d operations, %d workers)", n, threads)
+	}
+	if got := len(p.out); got != n {
+		return fmt.Errorf("Wait returned with %d of %d results produced (%d workers)", got, n, threads)
+	}
+	seen := map[int]bool{}
+	for i := 0; i < n; i++ {
+		r, ok := <-p.out
+		if !ok {
+			return fmt.Errorf("result channel closed after %d of %d results", i, n)
+		}
+		if r.Err == nil {
+			seen[r.Value.(int)] = true
+		}
+	}
+	for i := 0; i < n; i++ {
+		if i%3 != 0 && !seen[i] {
+			return fmt.Errorf("no result for operation %d", i)
+		}
+	}
+	if _, ok := <-p.out; ok {
+		return fmt.Errorf("more results than operations")
+	}
+	return nil
+}
+
 // verifProcessorRound submits n operations to a fresh processor, drains the results while submitting, closes the
 // queue and waits; it reports anything but "exactly one result per operation, Wait returns, out closed once".
 func verifProcessorRound(threads, buffer, n int, failEvery int) (err error) {
@@ -237,5 +287,13 @@ func TestVerifBounded_C19_Workers(t *testing.T) {
 			}
 		}
 	}
-	fmt.Printf("BOUNDED name=C19.workers cases=%d nontrivial=%d exhaustive=false domain=\"stress, not an enumeration of schedules: %d processor rounds (1..6 workers, buffer 0..3, 0..22 operations, none/every third/all failing) checked for exactly one result per operation, Wait returning and the result channel being closed after Close; %d Map calls (1..40 elements, 1..5 threads, chunk limit 1..9) checked for one result per chunk and chunks partitioning the input; 15 rounds of Stop arriving while the only worker is inside an operation (buffer 0, 1, 4: the result must still be delivered once); GOMAXPROCS 8\"\n", cases, nontrivial, rounds, rounds/3)
+	for rep := 0; rep < 12; rep++ {
+		cases++
+		if err := verifWaitAfterClose(8, 1+rep%4); err != nil {
+			t.Error(err)
+		} else {
+			nontrivial++
+		}
+	}
+	fmt.Printf("BOUNDED name=C19.workers cases=%d nontrivial=%d exhaustive=false domain=\"stress, not an enumeration of schedules: %d processor rounds (1..6 workers, buffer 0..3, 0..22 operations, none/every third/all failing) checked for exactly one result per operation, Wait returning and the result channel being closed after Close; %d Map calls (1..40 elements, 1..5 threads, chunk limit 1..9) checked for one result per chunk and chunks partitioning the input; 15 rounds of Stop arriving while the only worker is inside an operation (buffer 0, 1, 4: the result must still be delivered once); 12 rounds of Close and Wait on a pre-filled queue before the workers have run; GOMAXPROCS 8\"\n", cases, nontrivial, rounds, rounds/3)
 }
